@@ -111,6 +111,8 @@ class Poly(object):
                 o = list(o.t.values())[0]
             else:
                 raise TypeError('division by a non-constant polynomial')
+        if isinstance(o, np.ndarray):
+            return NotImplemented          # let NumPy broadcast: ndarray.__rtruediv__ divides element-wise
         c = _frac(o)
         return Poly(self.n, {e: v / c for e, v in self.t.items()})
 
